@@ -122,7 +122,10 @@ def check_series(kind, s):
         ser = pd.Series([float(x) for x in s], index=ix)
         rec = RF.FullRecorder()
         det = rf.detectors()[kind](recorder=rec)
-        det.process(ser)
+        try:
+            det.process(ser)
+        except Exception as ex:
+            return 'Series with %s index raises %s instead of being treated like its value array' % (name, type(ex).__name__)
         vf, vt = [float(v) for v in rec.values_from], [float(v) for v in rec.values_to]
         if kind == 'F':
             cyc = list(zip(vf, vt))
